@@ -564,19 +564,37 @@ _fail_no = _fixed("fail_if", st.sampled_from([False, 0, "", None, [], 0.0]), st.
 benign_call = st.one_of(_incr, _incr, st.just(["incr", [], {}]), _append, _append, _put, _put, _put, _get, _echo, _echo, _fail_no,
                         st.just(["snapshot", [], {}]))
 
-_raise = _fixed("fail_if", st.sampled_from([True, 1, "x", [0], -1.5, {"a": None}]), st.sampled_from(FAIL_KINDS), messages, small_ints)
-_refused = st.tuples(st.sampled_from(REFUSED_NAMES), st.lists(small_values, max_size=2), st.dictionaries(kw_names, small_values, max_size=1)).map(list)
+_raise = _fixed("fail_if", st.sampled_from([True, 1, "x", [0], -1.5, {"a": None}]),
+                st.sampled_from(FAIL_KINDS + ("valueattr", "valueattr", "carried", "carried", "uncarried", "stopiter")), messages, small_ints)
+_refused = st.tuples(st.sampled_from(REFUSED_NAMES + ("hidden", "_private", "__secret__", "incr.x", "snapshot.log", "incr.x")), st.lists(small_values, max_size=2), st.dictionaries(kw_names, small_values, max_size=1)).map(list)
 _missing = _fixed("get", st.sampled_from(["missing", "☃", -99, None]))
 _signature = st.tuples(st.integers(0, 6), small_values).map(
     lambda t: [["incr", ["x"], {}], ["incr", [1, 2], {}], ["put", [t[1]], {}], ["incr", [], {"bogus": t[1]}], ["put", [[1], t[1]], {}],
                ["append", [], {}], ["get", [t[1]], {"self": 1}]][t[0]])
-failing_call = st.one_of(_raise, _raise, _raise, _refused, _refused, _missing, _signature)
+failing_call = st.one_of(_raise, _raise, _raise, _raise, _refused, _refused, _refused, _missing, _signature)
 
 
 @st.composite
 def case_strategy(draw, ser, servertype):
     size = draw(st.integers(0, 10))
     calls = [copy.deepcopy(c) for c in draw(st.lists(benign_call, min_size=size, max_size=size))]
+    # benign lookups hit a key that an earlier member stored (otherwise unplanned KeyErrors would dominate the failure classes)
+    stored = {}
+    for c in calls:
+        if c[0] in ("put", "get"):
+            k = c[1][0] if c[1] else c[2]["k"]
+            if c[0] == "put":
+                stored[k] = True
+            elif k not in stored:
+                if stored:
+                    k = list(stored)[-1]
+                    if c[1]:
+                        c[1][0] = k
+                    else:
+                        c[2]["k"] = k
+                else:
+                    c[0], c[1], c[2] = "put", [k, [k]], {}
+                    stored[k] = True
     mode = draw(st.sampled_from(["none", "first", "middle", "middle", "last", "any", "any", "two"]))
     n = len(calls)
     if mode != "none":
@@ -632,7 +650,7 @@ def run(ctx):
     stype = ctx.shard.get("servertype", "thread")
     try:
         _served(stype)
-        ctx.search(case_strategy(ser, stype), run_case, ctx.n(450, 6000), nontrivial=_nontrivial, labels=_labels,
+        ctx.search(case_strategy(ser, stype), run_case, ctx.n(450, 15000), nontrivial=_nontrivial, labels=_labels,
                    name="batch", max_rounds=4)
     finally:
         _stop_all()
